@@ -61,6 +61,9 @@ type image struct {
 	prevMs   int64
 	curSnap  int // state index of the snapshot being written (-1 none), its time
 	curMs    int64
+	opName   string // the step acknowledged last ("@snapshot", "@rewrite", … or "cmd") and how it ended
+	opKind   string
+	opText   string
 }
 
 func readTree(dir string) map[string][]byte {
@@ -232,6 +235,9 @@ type pRun struct {
 	prevMs      int64
 	curSnap     int
 	curMs       int64
+	opName      string
+	opKind      string
+	opText      string
 }
 
 func (p *pRun) conn(i int) *net.Conn {
@@ -254,7 +260,8 @@ func (p *pRun) snap(point string) {
 		files[sub+"/"+n] = b
 	}
 	im := &image{point: point, op: p.curOp, now: p.in.Clock.Ms(), files: files, lo: p.acked, hi: -1, copyIdx: p.copyIdx, copyNow: p.copyNow, lastSave: p.lastSv,
-		injected: p.injAcked, rewrites: p.rewrites, stuck: p.stuck, prevSnap: p.prevSnap, prevMs: p.prevMs, curSnap: p.curSnap, curMs: p.curMs}
+		injected: p.injAcked, rewrites: p.rewrites, stuck: p.stuck, prevSnap: p.prevSnap, prevMs: p.prevMs, curSnap: p.curSnap, curMs: p.curMs,
+		opName: p.opName, opKind: p.opKind, opText: p.opText}
 	p.images = append(p.images, im)
 	if len(p.pending) > 0 {
 		p.pending[len(p.pending)-1] = append(p.pending[len(p.pending)-1], im)
@@ -337,6 +344,16 @@ func (p *pRun) emit(id string, im *image, files map[string][]byte, point string)
 	kind, dump, ls := restoreImage(files, p.seq.Mode, p.seq.Sync, im.now+p.seq.RestoreAdv)
 	var sb strings.Builder
 	fmt.Fprintf(&sb, "X %s %s %s %d %d %s J %s W %d U %s", id, p.seq.Mode, point, im.now, im.now+p.seq.RestoreAdv, p.seq.Sync, b01(im.injected), im.rewrites, b01(im.stuck))
+	on, ok := im.opName, im.opKind
+	if on == "" {
+		on, ok = "-", "-"
+	}
+	// does the live dataset at this instant hold a non-finite float (text +Inf / -Inf in the dump)?
+	nf := false
+	if im.lo >= 0 && im.lo < len(p.states) {
+		nf = strings.Contains(p.states[im.lo], " f x2b496e66") || strings.Contains(p.states[im.lo], " f x2d496e66")
+	}
+	fmt.Fprintf(&sb, " O %s %s %s %s", on, ok, X(im.opText), b01(nf))
 	if p.seq.Mode == "aof" {
 		lg, lok := files["aof/log.aof"]
 		pr, pok := files["aof/preamble.bin"]
@@ -527,10 +544,14 @@ func runPSeq(w *bufio.Writer, seqW *bufio.Writer, s PSeq) error {
 			}
 		}
 		p.armed = false
+		p.opName, p.opKind, p.opText = "cmd", r.Kind, ""
+		if engineOp {
+			p.opName, p.opText = cmd[0], r.Bytes
+		}
 		if r.Kind == "hang" {
 			if engineOp {
 				// report it as an image of its own: the server no longer answers, nothing can be restored from it
-				fmt.Fprintf(w, "X %s.%d.hang %s hang %d %d %s J 0 W %d U %s\n", s.ID, i, s.Mode, in.Clock.Ms(), in.Clock.Ms(), s.Sync, p.rewrites, b01(p.stuck))
+				fmt.Fprintf(w, "X %s.%d.hang %s hang %d %d %s J 0 W %d U %s O %s hang x 0\n", s.ID, i, s.Mode, in.Clock.Ms(), in.Clock.Ms(), s.Sync, p.rewrites, b01(p.stuck), cmd[0])
 			} else {
 				fmt.Fprintf(w, "H %s.%d\n", s.ID, i)
 			}
